@@ -8,20 +8,39 @@ CFG = {
                      "theories/Formats/StlProofs.v", "theories/Formats/Pts.v", "theories/Formats/PtsProofs.v",
                      "theories/Formats/Splat.v", "theories/Formats/Spz.v", "theories/Formats/PlyRead.v",
                      "theories/Formats/PrefixProofs.v"],
-    "level_text": "Coq theorems: every strict prefix of a valid file is rejected or yields only data present in the prefix "
-                  "(binary STL, PTS at token level, .splat records; PLY/SPZ through their byte models), for every file and "
-                  "every cut; tied to the code by decoding EVERY strict prefix of generated files with the real decoders "
-                  "under a deadline and judging each observation with the model and with a direct oracle",
-    "level_note": "Trusted: Coq kernel + vm_compute; compress/gzip and strconv outside the model; termination 'in time "
-                  "proportional to the input' is observed (deadline 2 s + 1 us/byte per decode), not proved about the Go runtime",
-    "technique": "Coq proof (prefix rejection by induction over records/lines) + exhaustive cut-point correspondence",
+    "level_text": "Coq theorems, one per format, for every file and every cut: binary STL (every strict prefix rejected), "
+                  ".splat (a k-byte prefix yields exactly the k/32 splats wholly present, error iff k mod 32 <> 0), SPZ "
+                  "(every strict prefix of the inflated stream rejected; gzip as a hypothesis), PLY binary and ASCII "
+                  "(threshold theorem: below the end of the promised data every cut is EOF, at or above it the identical "
+                  "mesh; vertex-line token cuts; header line cuts), PTS (token level), no-placeholder corollaries and "
+                  "record-read cost bounds (STL, .splat); tied to the code by decoding EVERY strict prefix of generated "
+                  "files with the real decoders in child processes (deadline, memory cap) and judging each observation "
+                  "with a direct oracle (prop_ok) and against the models' decode of the same prefix (corr_ok)",
+    "level_note": "Trusted: Coq kernel + vm_compute; compress/gzip (prefix-monotone inflate: hypothesis of prefix_spz, "
+                  "also used by the harness to compute how much plaintext a compressed prefix yields) and strconv are "
+                  "outside the model; 'time proportional to the input' is proved as a bound on record reads of the "
+                  "models and observed on the Go runtime (deadline 2 s + 1 us/byte per decode, RLIMIT_AS 3 GiB), not "
+                  "proved about the Go runtime; one ASCII-PLY clause (token cut inside a face line) is proved for the "
+                  "line reader only (_partial) and checked by the correspondence",
+    "technique": "Coq proof (stream-parser combinators with a threshold invariant; induction over records/lines) + "
+                 "exhaustive cut-point correspondence in capped child processes",
     "design_ref": "DESIGN.md §4 C14",
     "n_quick": 64, "n_thorough": 800,
-    "rule": "valid files of 7 kinds (STL, PLY ascii/le/be incl. faces+UV lists, PTS 3/4/7 columns, .splat, SPZ v1/v2 "
-            "degree 0-3 via an independent encoder) from random small meshes; EVERY byte cut for binary files and "
-            "headers, every token boundary for ASCII bodies; distinct by file bytes; non-trivial = more than 20 cuts",
-    "trusted": ["compress/gzip (SPZ) and strconv (ASCII numbers) are outside the model"],
-    "modelled": ["decoders are modelled at byte level (binary) / token level (ASCII); the Go runtime's time behaviour is observed, not modelled"],
+    "rule": "valid files of 8 kinds in rotation: STL; PLY ascii/le/be through polyform's writer (point clouds, "
+            "triangle meshes, +-normals, +-uchar colours, +-per-face texcoord lists, +-extra scalar); PLY through an "
+            "independent encoder (float/double positions, uchar rgb/rgba, int column, tri+quad faces, uchar/uint list "
+            "counts, int/uint indices, float/double texcoords, all three encodings); PTS 3/4/7 columns; .splat; SPZ "
+            "v1/v2 x SH degree 0-3 x gzip stored/default/fast via an independent encoder.  EVERY byte cut for binary "
+            "files and for PLY headers, every token boundary for ASCII bodies (stride sampling only above 1200 / 8192 "
+            "cuts, last 64 always kept); plus a fixed 'hostile count' stream (short file announcing 2^31 records) "
+            "reported in extra and judged once known_findings.json lists c14:alloc-by-declared-count; distinct by "
+            "file bytes; non-trivial = more than 20 cuts",
+    "trusted": ["compress/gzip (SPZ) and strconv (ASCII numbers) are outside the model",
+                "the harness' own tokenizer / inflate-length computation (independent of polyform) decides which "
+                "model prefix an observation is compared with"],
+    "modelled": ["decoders are modelled at byte level (binary) / token level (ASCII); the Go runtime's time and memory "
+                 "behaviour is observed (deadline, address-space cap), not modelled"],
+    "harness_timeout": 3000,
 }
 
 
